@@ -294,6 +294,12 @@ func (fr *Frame) modifiedRoots(lp *Loop) (map[ssa.Value]bool, bool) {
 		case *ssa.Alloc, *ssa.Parameter, *ssa.MakeSlice, *ssa.FreeVar, *ssa.MakeMap:
 			roots[r] = true
 		default:
+			if pv, ok := fr.vals[r].(PtrV); ok && pv.Cell != nil && len(pv.Path) == 0 {
+				// a pointer computed before the loop (e.g. returned by an inlined constructor)
+				// that is known to address one whole cell
+				roots[r] = true
+				return
+			}
 			if isEncoderPtr(r.Type()) || isNamedPtr(r.Type(), typesPkg, "Hasher") {
 				// the Encoder/Hasher state that matters is the ghost item stream, which is not
 				// part of the havoced memory
